@@ -2338,3 +2338,86 @@ def c09_disk_usage(model, meta):
 def c09_disk_usage_search(meta, seed, budget):
     yield {}
     yield {"f_bsize": 65536, "f_frsize": 512, "f_blocks": 10, "f_bfree": 5, "f_bavail": 3}
+
+
+# ---------------------------------------------------------------------------
+# C11: kind validation;  C15: Process.wait caching
+# ---------------------------------------------------------------------------
+VALID_KINDS = ('inet', 'inet4', 'inet6', 'tcp', 'tcp4', 'tcp6', 'udp', 'udp4', 'udp6', 'unix', 'all')
+
+
+@runner("c11:kind")
+def c11_kind(model, meta):
+    import psutil
+    kind = model.get("kind", cfg_of(meta).get("kind", "???"))
+    if kind == "<symbolic>":
+        kind = "net"
+    if isinstance(kind, str):
+        kind = unlat(kind).decode("latin-1") if "\\" in kind else kind
+    outcomes = []
+    for label, call in (("_check_conn_kind", lambda: psutil._check_conn_kind(kind)),
+                        ("net_connections", lambda: psutil.net_connections(kind)),
+                        ("Process.net_connections", lambda: psutil.Process().net_connections(kind))):
+        try:
+            call()
+            outcomes.append((label, None))
+        except Exception as e:  # noqa: BLE001
+            outcomes.append((label, type(e).__name__))
+    want = None if kind in VALID_KINDS else "ValueError"
+    bad = [o for o in outcomes if o[1] != want and not (want is None and o[1] in ("AccessDenied",))]
+    return {"env": {"k": kind, "kind": kind}, "result": outcomes, "exc": None, "verdict": bool(bad),
+            "tag": f"kind {kind!r}: {bad[0][0]} -> {bad[0][1]}, expected {want}" if bad else None}
+
+
+@search("c11:kind")
+def c11_kind_search(meta, seed, budget):
+    for k in VALID_KINDS + ("", "t", "net", "ud", "ix", "4", ", ", "???", "TCP", "tcp5", "raw", "inet ", " all", "al", "l"):
+        yield {"kind": k}
+
+
+@runner("c15:pwait")
+def c15_pwait(model, meta):
+    import psutil
+    cfgs = cfg_of(meta)
+    cached = model.get("cached", cfgs.get("cached", True))
+    p = psutil.Process()
+    calls = []
+    native = int(model.get("native_result", 5))
+    if str(cached) == "none":
+        p._exitcode, want = None, None
+    elif str(cached) == "True":
+        p._exitcode = want = int(model.get("cached_exitcode", 3))
+    else:
+        want = native
+    tmode = model.get("tmode", cfgs.get("timeout", "none"))
+    timeout = None if tmode == "none" else float(num(model.get("timeout", 0.5)))
+
+    def pw(self_, timeout=None):
+        calls.append(timeout)
+        return native
+    with mock.patch.object(type(p._proc), "wait", pw):
+        try:
+            res, exc = p.wait(timeout), None
+        except Exception as e:  # noqa: BLE001
+            res, exc = None, e
+    problems = []
+    if timeout is not None and timeout < 0:
+        if not isinstance(exc, ValueError) or calls:
+            problems.append(f"negative timeout: {exc!r}, {len(calls)} native call(s)")
+    elif exc is not None:
+        problems.append(f"raised {exc!r}")
+    elif str(cached) != "False":
+        if res != want or calls:
+            problems.append(f"cached {want!r}: wait() returned {res!r} after {len(calls)} native call(s)")
+    elif res != native or calls != [timeout] or p._exitcode != native:
+        problems.append(f"first wait(): returned {res!r}, native calls {calls}, cached {p._exitcode!r}")
+    return {"env": {}, "result": problems, "exc": None, "verdict": bool(problems),
+            "tag": problems[0][:150] if problems else None}
+
+
+@search("c15:pwait")
+def c15_pwait_search(meta, seed, budget):
+    for cached in ("True", "none", "False"):
+        for tmode in ("none", "some"):
+            yield {"cached": cached, "tmode": tmode, "timeout": 0.25}
+    yield {"cached": "False", "tmode": "some", "timeout": -1.0}
